@@ -171,8 +171,15 @@ PROP_UNITS = {
     "C10": ["threefish", "threefish_no_unroll"],
 }
 
+TF_VERUS = dict(builder="threefish", expect_min=4, tier="quick", second_route_exists=True,
+                funcs="Verus on the bodies of Threefish{256,512,1024}::{encrypt_block, decrypt_block} (word-level cores), mix, inv_mix, extracted from rustc's macro expansion of /repo, unrolled and no_unroll, with loop invariants against the Skein 1.3 specification functions")
 PROP_VERUS = {
-    "C10": [dict(file="verus/compose_inverse.rs", expect_min=3, tier="quick",
+    "C08": [dict(file="verus/chunking.rs", expect_min=8, tier="quick",
+                 funcs="spec-level induction over the call history: the per-call update contract (eager and lazy buffering) makes the stream view grow by exactly the bytes given, the representation is a function of the stream view, hence partition invariance")],
+    "C17": [dict(builder="blake_increase_count", expect_min=4, tier="quick", second_route_exists=True,
+                 funcs="Verus on the bodies of Blake{224,256,384,512}::increase_count extracted from rustc's macro expansion: 2W-bit counter value grows by exactly 8*count (carry between the words)")],
+    "C09": [TF_VERUS],
+    "C10": [TF_VERUS, dict(file="verus/compose_inverse.rs", expect_min=3, tier="quick",
                  funcs="spec-level induction: undo_rounds(do_rounds(v)) == v and do_rounds(undo_rounds(w)) == w from the per-round inverse lemmas")],
 }
 
